@@ -104,6 +104,10 @@ def ev_bool(src, r, exc):
 
 
 LISTS = [[7], [7, 8], [7, 8, 9], [7, 7, 8], [1, 2, 3, 4], [5, 5, 5]]
+# equal (and adjacent) float bounds whose significands are "busy": any arithmetic detour shows as a last-bit error
+import math as _math
+EQUAL_FLOATS = [(123.456, 123.456), (1 / 3, 1 / 3), (6.02e23, 6.02e23), (-0.1, -0.1), (1e-7, 1e-7),
+                (123.456, _math.nextafter(123.456, 1e9)), (_math.nextafter(1 / 3, 0.0), 1 / 3)]
 FRAC_WS = [[0, 700, 200, 100], [0] + [100] * 10, [0, 300, 300, 300, 100], [0, 100, 200, 700], [100, 200, 0, 700],
            [0, 333, 333, 334], [0, 1, 999], [700, 200, 100, 0]]
 # weights below the 1e-5 resolution of choice_weighted, in units of 1e-7
@@ -289,7 +293,7 @@ def main():
                 for _ in range(len(dna)):
                     r, exc = call(lambda: s.randint(lo, hi))
                     evs.append(ev_int(cname, "randint", lo, hi, r, exc))
-            for (lo, hi) in [(0.0, 1.0), (-100.0, 100.0), (2.5, 2.5), (-1e9, 1e9)]:
+            for (lo, hi) in [(0.0, 1.0), (-100.0, 100.0), (2.5, 2.5), (-1e9, 1e9)] + EQUAL_FLOATS:
                 r, exc = call(lambda: s.random_float(lo, hi))
                 evs.append(ev_int(cname, "random_float", lo, hi, r, exc, ty=tyname(r)))
             for lst in LISTS:
@@ -337,8 +341,8 @@ def main():
             for _ in range(8):
                 r, exc = call(lambda: s.randint(lo, hi))
                 evs.append(ev_int("Native", "randint", lo, hi, r, exc))
-        for (lo, hi) in [(0.0, 1.0), (-100.0, 100.0), (2.5, 2.5), (-1e300, 1e300), (0.0, 1e-300)]:
-            for _ in range(8):
+        for (lo, hi) in [(0.0, 1.0), (-100.0, 100.0), (2.5, 2.5), (-1e300, 1e300), (0.0, 1e-300)] + EQUAL_FLOATS:
+            for _ in range(8 if lo != hi else 40):
                 r, exc = call(lambda: s.random_float(lo, hi))
                 evs.append(ev_int("Native", "random_float", lo, hi, r, exc, ty=tyname(r)))
         for lst in LISTS:
